@@ -12,12 +12,13 @@ LEVEL_TEXT = ("Lean 4 theorem fillNp_eq_rows over a transcription of every _nump
               "whole and split batches; on empty and pre-filled aggregators; numpy record arrays) against the model's fillNp and "
               "against per-row fills, with the theorem's hypotheses evaluated on the model's copy of each batch and byte-wise "
               "comparison of the input arrays.")
-LEVEL_NOTE = ("numpy.histogram / unique / average enter as their contracts; the scalar-weight protocol with unknown batch length is "
+LEVEL_NOTE = ("numpy.unique / average / bincount enter as their contracts; the scalar-weight protocol with unknown batch length is "
               "outside the model (known finding C03-scalar-weight-count-first, excluded region: scalar/unit weights on trees in which a Count is visited before the "
               "first quantity). 'Input arrays unmodified' is a frame condition checked by the harness only.")
 TECHNIQUE = "Lean 4 proof (vectorised = row-wise for all trees/batches) + correspondence against a transcription of _numpy + oracle"
 LEAN_MODULE = "Hg.Props.C03"
-THEOREMS = ["Hg.C03.fillNp_eq_rows", "Hg.C03.fillNp_split", "Hg.C03.sum_nan_np_differs"]
+THEOREMS = ["Hg.C03.fillNp_eq_rows", "Hg.C03.fillNp_split", "Hg.C03.sum_nan_np_differs", "Hg.C03.count_transform_np_eq_rows",
+            "Hg.C03.count_transform_np_scalar_eq_rows"]
 CASES = {"quick": 300, "thorough": 10000}
 RULE = ("random tree with at least one quantity-bearing node, a column batch of 0..12 rows over the tree's critical values (NaN, "
         "+-inf, values exactly on edges), weights: unit, a scalar, or a non-negative array (zeros included); fill.numpy of the whole "
@@ -57,6 +58,11 @@ def gen_params(rng, tier):
         elif r < 0.27:
             # plain histograms (all bins Count): the vectorised fast paths (numpy.histogram, numpy.unique)
             spec = gen.gen_spec(rng, rng.randint(1, 2), kinds=["Bin", "SparselyBin", "CentrallyBin", "IrregularlyBin", "Categorize", "Count"])
+        elif r < 0.37:
+            # a numeric selection (Fraction / Select over the selection column) at the top: the routed weight is value * weight
+            inner = gen.gen_spec(rng, rng.randint(0, 1))
+            k0 = rng.choice(["Fraction", "Select"])
+            spec = {"k": k0, "q": [gen.SEL_COL, rng.choice(gen.NAMES)], ("value" if k0 == "Fraction" else "cut"): inner}
         else:
             spec = gen.gen_spec(rng, rng.randint(0, 3))
         if not has_quantity(spec):
@@ -88,10 +94,20 @@ def gen_params(rng, tier):
         if nan_reaches_sum(spec, rows):
             continue
         mode = rng.choice(["array", "array", "unit", "scalar"])
+        if 0.27 <= r < 0.37:
+            mode = "array"
+            for r_ in rows:
+                if rng.random() < 0.4:
+                    r_[1] = 0.0
         if mode != "array" and not scalar_weight_safe(spec):
             mode = "array"
         if mode == "scalar":
             mode = ["scalar", rng.choice([2.0, 0.5, 3.0, 1.0, 1])]
+        if mode == "array":
+            for r_ in rows:
+                # a row of weight zero is skipped by the row-wise fill whatever its selection value is, +inf included
+                if r_[1] == 0.0 and rng.random() < (0.8 if 0.27 <= r < 0.37 else 0.5):
+                    r_[0][gen.SEL_COL] = float("inf")
         cut = rng.randint(0, len(rows))
         out = {"spec": spec, "rows": rows, "mode": mode, "cut": cut}
         stacks = [b for b in gen.walk(spec) if b["k"] == "Stack" and len(b["edges"]) > 1]
@@ -137,8 +153,191 @@ def build(p):
     return {"ops": ops, "expect": expect}
 
 
+TRANSFORMS = [("halves its weight", lambda w: 0.5 * w), ("squares its weight", lambda w: w * w),
+              ("counts rows, whatever their weight", lambda w: 1.0 + 0.0 * w), ("adds one to its weight", lambda w: w + 1.0)]
+
+
+def transform_check(p):
+    """Implementation-level (the weight transform of Count is outside the model): a tree whose Counts transform their weight
+    is filled once per row and once vectorised with the case's batch and weights; a row that the per-row fill skips (weight 0,
+    or routed elsewhere by a parent) contributes nothing on the vectorised path either."""
+    import execs
+
+    spec, mode = p["spec"], p["mode"]
+    if p.get("unsorted") or not any(s_["k"] == "Count" for s_ in gen.walk(spec)):
+        return []
+    if mode != "array" and not scalar_weight_safe(spec):
+        mode = "array"
+    rows = [(r[0], r[1]) for r in p["rows"]]
+    eff = lambda w: 1.0 if mode == "unit" else (mode[1] if isinstance(mode, list) else w)  # noqa: E731
+    real_count = gen.hg.Count
+    msgs = []
+    for what, f in TRANSFORMS:
+        def build_t():
+            gen.hg.Count = lambda *a, **kw: real_count(f)
+            try:
+                return gen.build(spec)
+            finally:
+                gen.hg.Count = real_count
+        try:
+            v, r = build_t(), build_t()
+        except Exception:  # noqa: BLE001
+            return []
+        try:
+            data = execs.np_columns([d for d, _ in rows])
+            if mode == "unit":
+                v.fill.numpy(data)
+            elif isinstance(mode, list):
+                v.fill.numpy(data, mode[1])
+            else:
+                import numpy as np
+
+                v.fill.numpy(data, np.array([float(w) for _, w in rows], dtype=np.float64))
+            for d, w in rows:
+                r.fill(d, eff(w))
+            dd = execs.diff_doc(execs.prune_doc(execs.canon_doc(v.toJson())), execs.prune_doc(execs.canon_doc(r.toJson())))
+            if dd:
+                msgs.append("with Counts of which each %s: vectorised fill differs from per-row fill (zero-weight bins ignored): %s" % (what, dd))
+        except Exception as e:  # noqa: BLE001
+            msgs.append("with Counts of which each %s: %s: %s" % (what, type(e).__name__, str(e)[:200]))
+        if msgs:
+            break
+    return msgs
+
+
+EDGE_CFG = [(50, 0.0, 10.0), (30, 0.0, 7.0), (10, 0.0, 1.0), (7, 0.1, 0.8), (5, -1.0, 2.0), (12, -0.3, 0.9), (9, 0.0, 0.9), (25, 1.0, 3.5),
+            (3, 0.0, 1.0), (6, -0.7, 1.1)]
+
+
+def edge_check(p):
+    """Implementation-level, on bin widths that are not exactly representable (outside exactness class E): values on and next
+    to every edge of a Bin — the edge computed three ways and its two neighbouring floats — must land in the same bin under
+    fill.numpy as under fill, on the fast path for plain Counts, on the general path (an infinite value in the batch) and
+    for a non-Count bin content."""
+    import numpy as np
+
+    hg = gen.hg
+    h_ = len(p["rows"]) * 7 + p["cut"]
+    n, lo, hi = EDGE_CFG[h_ % len(EDGE_CFG)]
+    xs = []
+    for i in range(n + 1):
+        for e in (lo + i * (hi - lo) / n, lo + i * ((hi - lo) / n), round(lo + i * (hi - lo) / n, 10)):
+            xs += [float(e), float(np.nextafter(e, -np.inf)), float(np.nextafter(e, np.inf))]
+    wts = [1.0, 2.0, 0.5, 4.0]
+    for mode in ("plain Counts", "plain Counts and an infinite value in the batch", "Minimize in every bin"):
+        def mk():
+            return hg.Bin(n, lo, hi, lambda x: x, hg.Minimize(lambda x: x) if mode.startswith("Minimize") else hg.Count())
+        arr = np.array(xs + ([float("inf")] if "infinite" in mode else []))
+        for weighted in (False, True):
+            a, b = mk(), mk()
+            try:
+                if weighted:
+                    w = np.array([wts[i % 4] for i in range(len(arr))])
+                    a.fill.numpy(arr, w)
+                    for x, wi in zip(arr, w):
+                        b.fill(float(x), float(wi))
+                else:
+                    a.fill.numpy(arr)
+                    for x in arr:
+                        b.fill(float(x))
+            except Exception as e:  # noqa: BLE001
+                return ["Bin(%d, %r, %r) with %s filled on and next to its edges: %s: %s" % (n, lo, hi, mode, type(e).__name__, str(e)[:200])]
+            ja, jb = a.toJson()["data"], b.toJson()["data"]
+            if ja != jb:
+                ent = lambda v: v["entries"] if isinstance(v, dict) else v  # noqa: E731
+                d = [(i, ent(x), ent(y)) for i, (x, y) in enumerate(zip(ja["values"], jb["values"])) if x != y][:3]
+                return ["Bin(%d, %r, %r) with %s, filled on and next to its edges%s: fill.numpy and fill put values into different "
+                        "bins: (bin, vectorised, per row) = %r" % (n, lo, hi, mode, " with weights" if weighted else "", d)]
+    # SparselyBin: the same for bin widths / origins that are not exactly representable
+    w_, o_ = SPARSE_CFG[h_ % len(SPARSE_CFG)]
+    xs = []
+    for i in range(-6, 30):
+        for e in (o_ + i * w_, round(o_ + i * w_, 10), (i + o_ / w_) * w_):
+            xs += [float(e), float(np.nextafter(e, -np.inf)), float(np.nextafter(e, np.inf))]
+    for mode in ("plain Counts", "Minimize in every bin"):
+        def mks():
+            return hg.SparselyBin(w_, lambda x: x, hg.Minimize(lambda x: x) if mode.startswith("Minimize") else hg.Count(), origin=o_)
+        arr = np.array(xs)
+        for weighted in (False, True):
+            a, b = mks(), mks()
+            try:
+                if weighted:
+                    w = np.array([wts[i % 4] for i in range(len(arr))])
+                    a.fill.numpy(arr, w)
+                    for x, wi in zip(arr, w):
+                        b.fill(float(x), float(wi))
+                else:
+                    a.fill.numpy(arr)
+                    for x in arr:
+                        b.fill(float(x))
+            except Exception as e:  # noqa: BLE001
+                return ["SparselyBin(%r, origin=%r) with %s filled on and next to its edges: %s: %s" % (w_, o_, mode, type(e).__name__, str(e)[:200])]
+            ja, jb = a.toJson()["data"], b.toJson()["data"]
+            if ja != jb:
+                ent = lambda v: v["entries"] if isinstance(v, dict) else v  # noqa: E731
+                keys = sorted(set(ja["bins"]) | set(jb["bins"]), key=int)
+                d = [(k, ent(ja["bins"].get(k, 0.0)), ent(jb["bins"].get(k, 0.0))) for k in keys if ja["bins"].get(k) != jb["bins"].get(k)][:3]
+                return ["SparselyBin(%r, origin=%r) with %s, filled on and next to its edges%s: fill.numpy and fill put values into "
+                        "different bins: (bin, vectorised, per row) = %r" % (w_, o_, mode, " with weights" if weighted else "", d)]
+    # CentrallyBin on and next to its midpoints, IrregularlyBin / Stack on and next to their thresholds
+    cs = sorted(CENTRAL_CFG[h_ % len(CENTRAL_CFG)])
+    xs = list(cs)
+    for c1, c2 in zip(cs, cs[1:]):
+        for m in ((c1 + c2) / 2, c1 + (c2 - c1) / 2, 0.5 * c1 + 0.5 * c2):
+            xs += [float(m), float(np.nextafter(m, -np.inf)), float(np.nextafter(m, np.inf))]
+    es = []
+    for e in cs:
+        es += [float(e), float(np.nextafter(e, -np.inf)), float(np.nextafter(e, np.inf))]
+    for what, mk_, vals in (("CentrallyBin(%r)" % (cs,), lambda c: hg.CentrallyBin(cs, lambda x: x, c), xs),
+                            ("IrregularlyBin(%r)" % (cs,), lambda c: hg.IrregularlyBin(cs, lambda x: x, c), es),
+                            ("Stack(%r)" % (cs,), lambda c: hg.Stack(cs, lambda x: x, c), es)):
+        for child in ("Count", "Minimize"):
+            for weighted in (False, True):
+                a, b = (mk_(hg.Count() if child == "Count" else hg.Minimize(lambda x: x)) for _ in range(2))
+                arr = np.array(vals)
+                w = np.array([wts[i % 4] for i in range(len(arr))])
+                try:
+                    if weighted:
+                        a.fill.numpy(arr, w)
+                        for x, wi in zip(arr, w):
+                            b.fill(float(x), float(wi))
+                    else:
+                        a.fill.numpy(arr)
+                        for x in arr:
+                            b.fill(float(x))
+                except Exception as e:  # noqa: BLE001
+                    return ["%s of %s filled on and next to its boundaries: %s: %s" % (what, child, type(e).__name__, str(e)[:200])]
+                if a.toJson() != b.toJson():
+                    return ["%s of %s filled on and next to its boundaries%s: fill.numpy and fill disagree: %s"
+                            % (what, child, " with weights" if weighted else "",
+                               execs_diff(a.toJson(), b.toJson()))]
+    return []
+
+
+def execs_diff(x, y):
+    import execs
+
+    return execs.diff_doc(execs.canon_doc(x), execs.canon_doc(y), mode="strict")
+
+
+CENTRAL_CFG = [[0.1, 0.3, 0.7, 1.9], [-2.0, 0.3, 0.7, 3.1], [1 / 3, 2 / 3, 1.0, 4 / 3], [-0.3, 0.0, 0.1 + 0.2], [0.1, 0.2, 0.30000000000000004, 0.401]]
+SPARSE_CFG = [(0.1, 0.0), (3.0, 1.0), (0.3, 0.0), (0.7, 0.1), (0.1, 0.05), (1.1, -0.3), (0.2, 0.0)]
+
+
+def post_model(py, model):
+    from runner import dec
+
+    p = dec(py.case["params"])
+    ws = [r[1] for r in p["rows"]]
+    cut = min(p["cut"], len(ws))
+    return common.countt_post(model, ws, [ws[:cut], ws[cut:]], [0, 1], len(ws) + cut)
+
+
 def oracle(case, py, replies):
-    return common.eval_expect(case, py, replies)
+    from runner import dec
+
+    p = dec(case["params"])
+    return common.eval_expect(case, py, replies) + transform_check(p) + edge_check(p)
 
 
 def stats(case, py, replies):
